@@ -294,22 +294,23 @@ Definition xmcd_crc (A : area) (g : regs) : res (list N) :=
 Definition tz_value (v : value) : res Z :=
   match v with VInt z => Ok z | VStr s => value_to_int_str s | _ => Err 2%N end.
 
-Fixpoint tz_custom (customs : list (nat * value)) (i : nat) (acc : option value) : option value :=
+(* positions are binary numbers: the tables have several hundred entries *)
+Fixpoint tz_custom (customs : list (Z * value)) (i : Z) (acc : option value) : option value :=
   match customs with
   | [] => acc
-  | (j, v) :: t => tz_custom t i (if Nat.eqb i j then Some v else acc)
+  | (j, v) :: t => tz_custom t i (if i =? j then Some v else acc)
   end.
 
 (* struct.pack("<NI", ...): a value outside 0 .. 2^32-1 is a struct.error *)
-Fixpoint tz_words (presets : list (list N * list N)) (customs : list (nat * value)) (i : nat) : res (list Z) :=
+Fixpoint tz_words (presets : list (list N * list N)) (customs : list (Z * value)) (i : Z) : res (list Z) :=
   match presets with
   | [] => Ok []
   | (_, dflt) :: t =>
       bind (tz_value (match tz_custom customs i None with Some v => v | None => VStr dflt end)) (fun w =>
-      bind (tz_words t customs (S i)) (fun ws => Ok (w :: ws)))
+      bind (tz_words t customs (i + 1)) (fun ws => Ok (w :: ws)))
   end.
 
-Definition tz_export (presets : list (list N * list N)) (customs : list (nat * value)) : res (list N) :=
+Definition tz_export (presets : list (list N * list N)) (customs : list (Z * value)) : res (list N) :=
   bind (tz_words presets customs 0) (fun ws =>
   if forallb (fun w => (0 <=? w) && (w <? 2 ^ 32)) ws then Ok (flat_map (fun w => le_enc 4 (Z.to_N w)) ws) else Err 2%N).
 
@@ -323,14 +324,30 @@ Fixpoint tz_unpack (n : nat) (raw : list N) : list Z :=
 Definition tz_parse (presets : list (list N * list N)) (raw : list N) : res (list Z) :=
   if Z.of_nat (length presets) >? zlen raw / 4 then Err 1%N else Ok (tz_unpack (length presets) raw).
 
-Definition tz_customs_of (ws : list Z) : list (nat * value) := combine (seq 0 (length ws)) (map VInt ws).
+Fixpoint zseq (start : Z) (len : nat) : list Z :=
+  match len with O => [] | S k => start :: zseq (start + 1) k end.
+Definition tz_customs_of (ws : list Z) : list (Z * value) := combine (zseq 0 (length ws)) (map VInt ws).
+
+(* digits by masking and shifting (no division: the numbers are thousands of bits long) *)
+Fixpoint digits_le (bits : N) (len : nat) (n : N) : list N :=
+  match len with
+  | O => []
+  | S k => N.land n (N.ones bits) :: digits_le bits k (N.shiftr n bits)
+  end.
+Definition undigits_be (bits : N) (l : list N) : N := fold_left (fun acc d => N.lor (N.shiftl acc bits) d) l 0%N.
+Definition CPB : N := 21%N.
 
 (* ------------------------------------------------------------------ observables *)
+(* raw value of every top-level register followed by the raw values of its sub-registers, width/8 bytes big endian each *)
+Definition raw_bytes (w v : Z) : list N := rev (digits_le 8 (Z.to_nat (w / 8)) (Z.to_N v)).
 Definition snap_raw (g : regs) : value :=
-  VList (map (fun ir =>
-    VList (vz (t_get g (Top (fst ir)) true) ::
-           map (fun j => vz (t_get g (Sub (fst ir) j) true)) (seq 0 (length (r_subs (snd ir))))))
-    (combine (seq 0 (length (g_regs g))) (g_regs g))).
+  vres VBytes (bind (traverse_res (fun ir =>
+      let r := snd ir in
+      bind (t_get g (Top (fst ir)) true) (fun v =>
+      bind (traverse_res (fun js => bind (t_get g (Sub (fst ir) (fst js)) true) (fun x => Ok (raw_bytes (s_width (snd js)) x)))
+             (combine (seq 0 (length (r_subs r))) (r_subs r))) (fun subs =>
+      Ok (raw_bytes (s_width (r_base r)) v ++ concat subs))))
+    (combine (seq 0 (length (g_regs g))) (g_regs g))) (fun l => Ok (concat l))).
 
 Definition cpay_value (kv : list N * cpay) : value :=
   match snd kv with
@@ -344,27 +361,21 @@ Definition vbytes (r : res (list N)) : value := vres VBytes r.
 (* ------------------------------------------------------------------ compact wire format
    strings and byte strings travel as numbers (Coq reads and prints long lists of small numerals slowly):
      VList [VInt (-1); VInt len; VInt n]  a string of len code points, n in base 2^21, most significant first
-     VList [VInt (-2); VInt len; VInt n]  len bytes, n big endian *)
-Fixpoint digits_le (base : N) (len : nat) (n : N) : list N :=
-  match len with
-  | O => []
-  | S k => (n mod base)%N :: digits_le base k (n / base)%N
-  end.
-Definition undigits_be (base : N) (l : list N) : N := fold_left (fun acc d => (acc * base + d)%N) l 0%N.
-Definition CP : N := 2097152%N.
-
+     VList [VInt (-2); VInt len; VInt n]  len bytes, n big endian
+     VList [VInt (-6); VInt len; VInt n]  a string of len code points below 256, n big endian in base 256 *)
 Fixpoint unpack (v : value) {struct v} : value :=
   match v with
-  | VList [VInt (-1); VInt len; VInt n] => VStr (rev (digits_le CP (Z.to_nat len) (Z.to_N n)))
-  | VList [VInt (-2); VInt len; VInt n] => VBytes (be_enc (Z.to_nat len) (Z.to_N n))
+  | VList [VInt (-1); VInt len; VInt n] => VStr (rev (digits_le CPB (Z.to_nat len) (Z.to_N n)))
+  | VList [VInt (-2); VInt len; VInt n] => VBytes (rev (digits_le 8 (Z.to_nat len) (Z.to_N n)))
+  | VList [VInt (-6); VInt len; VInt n] => VStr (rev (digits_le 8 (Z.to_nat len) (Z.to_N n)))
   | VList l => VList ((fix go (l : list value) : list value := match l with [] => [] | x :: t => unpack x :: go t end) l)
   | _ => v
   end.
 
 Fixpoint pack (v : value) {struct v} : value :=
   match v with
-  | VStr s => VList [VInt (-1); vnat (length s); VInt (Z.of_N (undigits_be CP s))]
-  | VBytes b => VList [VInt (-2); vnat (length b); VInt (Z.of_N (be_dec b))]
+  | VStr s => VList [VInt (-1); vnat (length s); VInt (Z.of_N (undigits_be CPB s))]
+  | VBytes b => VList [VInt (-2); vnat (length b); VInt (Z.of_N (undigits_be 8 b))]
   | VList l => VList ((fix go (l : list value) : list value := match l with [] => [] | x :: t => pack x :: go t end) l)
   | _ => v
   end.
@@ -385,8 +396,8 @@ Definition dec_ce (v : value) : option centry_a :=
   | _ => None
   end.
 
-Definition dec_custom (v : value) : option (nat * value) :=
-  match v with VList [VInt i; x] => Some (Z.to_nat i, x) | _ => None end.
+Definition dec_custom (v : value) : option (Z * value) :=
+  match v with VList [VInt i; x] => Some (i, x) | _ => None end.
 
 Definition dflt_area : area := mkArea 0 (mkRegs false []) 0 false 0%N [] None None None 0 0%nat None.
 Definition E_NA : N := 97%N.        (* the area has no such operation *)
@@ -433,19 +444,50 @@ Definition run_area_raw (A : area) (fn : Z) (args : list value) : value :=
   | _, _ => VErr E_BADCASE
   end.
 
-Definition run_area (A : area) (fn : Z) (args : list value) : value :=
-  pack (run_area_raw A fn (map unpack args)).
+(* printing long results is slow: the harness hands over what the implementation produced; a slot that agrees is
+   answered by a mark, a slot that differs (or for which nothing is expected: VList [VInt (-3)]) is printed *)
+Definition MARK_SAME : value := VList [VInt (-4)].
+Definition check_slot (all : list value) (out exp : value) : value :=
+  match exp with
+  | VList [VInt (-3)] => pack out
+  | VList [VInt (-5); VInt k] => if value_eqb out (nth (Z.to_nat k) all (VErr 0%N)) then MARK_SAME else pack out
+  | _ => if value_eqb out exp then MARK_SAME else pack out
+  end.
+Fixpoint check_slots (all : list value) (outs exps : list value) : list value :=
+  match outs, exps with
+  | [], _ => []
+  | o :: t, [] => pack o :: check_slots all t []
+  | o :: t, e :: t' => check_slot all o e :: check_slots all t t'
+  end.
+(* expected slots arrive packed; VList [VInt (-5); VInt k] stands for "the same as expected slot k" *)
+Definition answer (out : value) (exps : list value) : value :=
+  match out with
+  | VList l => let all := map unpack exps in VList (check_slots all l all)
+  | _ => pack out
+  end.
 
-(* run_tz P [customisations]: [export; words parsed back; export of from_binary(export)] *)
+(* the last argument is the list of expected slots *)
+Definition split_last (args : list value) : list value * list value :=
+  match rev args with
+  | VList exps :: front => (rev front, exps)
+  | _ => (args, [])
+  end.
+
+Definition run_area (A : area) (fn : Z) (args : list value) : value :=
+  let (front, exps) := split_last args in
+  answer (run_area_raw A fn (map unpack front)) exps.
+
+(* run_tz P [customisations; expected]: [export; words parsed back; export of from_binary(export)] *)
 Definition run_tz (P : list (list N * list N)) (args : list value) : value :=
-  match map unpack args with
+  let (front, exps) := split_last args in
+  match map unpack front with
   | [VList customs] =>
       match traverse dec_custom customs with
       | None => VErr E_BADCASE
       | Some cu =>
           let e1 := tz_export P cu in
           let ws := bind e1 (tz_parse P) in
-          pack (VList [vbytes e1; vres (fun l => VList (map VInt l)) ws; vbytes (bind ws (fun l => tz_export P (tz_customs_of l)))])
+          answer (VList [vbytes e1; vres (fun l => VList (map VInt l)) ws; vbytes (bind ws (fun l => tz_export P (tz_customs_of l)))]) exps
       end
   | _ => VErr E_BADCASE
   end.
